@@ -9,11 +9,66 @@ import (
 )
 
 type (
-	Once      = sync.Once
-	Locker    = sync.Locker
-	WaitGroup = sync.WaitGroup
-	Map       = sync.Map
+	Locker = sync.Locker
+	Map    = sync.Map
 )
+
+// WaitGroup under the controlled scheduler: Wait is a blocking scheduling point.
+type WaitGroup struct {
+	real sync.WaitGroup
+	n    int
+}
+
+func (w *WaitGroup) Add(d int) {
+	if !vsched.Controlled() {
+		w.real.Add(d)
+		return
+	}
+	if vsched.Aborting() {
+		return
+	}
+	w.n += d
+	if w.n < 0 {
+		panic("sync: negative WaitGroup counter")
+	}
+}
+
+func (w *WaitGroup) Done() { w.Add(-1) }
+
+func (w *WaitGroup) Wait() {
+	if !vsched.Controlled() {
+		w.real.Wait()
+		return
+	}
+	if vsched.Aborting() {
+		return
+	}
+	vsched.Point(vsched.KChan, "waitgroup", func() bool { return w.n == 0 })
+}
+
+// Once under the controlled scheduler: callers that arrive while f runs wait at a scheduling point.
+type Once struct {
+	real    sync.Once
+	done    bool
+	running bool
+}
+
+func (o *Once) Do(f func()) {
+	if !vsched.Controlled() {
+		o.real.Do(f)
+		return
+	}
+	if vsched.Aborting() {
+		return
+	}
+	vsched.Point(vsched.KLock, "once", func() bool { return !o.running })
+	if o.done {
+		return
+	}
+	o.running = true
+	defer func() { o.running, o.done = false, true }()
+	f()
+}
 
 var mutexSeq int
 
